@@ -49,7 +49,7 @@ import (
 
 const httpPart = "http"
 
-var httpSubs = []string{"http-requests", "sdpfrag", "precondition-headers"}
+var httpSubs = []string{"http-requests", "sdpfrag", "precondition-headers", "rtcp-report-timing"}
 
 func runHTTP(res *core.Result) {
 	if isCoordinator() {
@@ -695,6 +695,9 @@ func runHTTPShard(res *core.Result) {
 	c.flush()
 	if core.Want("precondition-headers") && o.Shard == 0 {
 		runPrecondHeaders(res)
+	}
+	if core.Want("rtcp-report-timing") && o.Shard == 1%o.Shards {
+		runReportTiming(res)
 	}
 }
 
